@@ -17,12 +17,14 @@ struct MoveOnly {
 
 // instance-counted, multi-word checksummed body: a half-published or destroyed instance is visible
 enum { SLOT_CTOR = 40, SLOT_DTOR = 41, SLOT_LIVE = 42, SLOT_MAXLIVE = 43, SLOT_BAD = 44 };
+struct Poison { int id; };        // a Counted cannot be constructed from it: the converting constructor throws TestExc(id)
 struct Counted {
     static constexpr uint64_t K = 0x9e3779b1ULL, DEAD = 0xdeadc0dedeadc0deULL;
     uint64_t w[4];
     void fill(int v) { for (int i = 0; i < 4; i++) w[i] = ((uint64_t)(uint32_t)v + 1) * (K + 2 * i); }
     void born() { hz::slot_add(SLOT_CTOR, 1); long l = hz::slot_add(SLOT_LIVE, 1); if (l > hz::slot_get(SLOT_MAXLIVE)) hz::slot_set(SLOT_MAXLIVE, l); }
     explicit Counted(int v) { fill(v); born(); }
+    Counted(const Poison &p) { throw TestExc(p.id); }
     Counted(const Counted &o) { int v = o.val(); fill(v < 0 ? 0 : v); if (v < 0) w[3] ^= 1; born(); }
     // a moved-from instance stays a valid object but reads as MOVED: code that goes on using an object somebody
     // else moved out of (instead of copying) is visible
